@@ -20,7 +20,7 @@ LEVEL = "exploration"
 SHARDS = {"quick": 16, "thorough": 16}
 FLOOR = {"quick": 40, "thorough": 800}
 REQUIRED_COUNTERS = ["history_steps", "import_probes", "core_symbol_checks", "histories_with_repetition", "histories_with_spec_change",
-                     "nonforce_steps", "core_depth_1", "core_depth_2", "core_depth_3", "core_depth_4", "core_depth_5", "core_depth_6",
+                     "nonforce_steps", "core_depth_1", "core_depth_2", "core_depth_3", "core_depth_4", "core_depth_5", "core_depth_6", "core_depth_7", "core_depth_8",
                      "registry_contract_evals"]
 RULE = ("histories of (client, document, force) actions over 3 clients x 4 documents (declared error sets {404}, {422,500}, {}, {404,409,503}) "
         "x shared core at depth 1-4; quick: random histories of length 4; thorough: all two-step histories + random length 5-6; "
@@ -29,9 +29,12 @@ ASSUMPTIONS = ["a non-force step that raises (differences found) is a visible fa
 
 ERRSETS = {"d404": [404], "d422_500": [422, 500], "dnone": [], "d404_409_503": [404, 409, 503]}
 # 5 and 6: a shared core whose directory name extends the directory name of one of the clients (shop / shop_core)
-CORES = {1: "sharedcore", 2: "acme.core", 3: "acme.shared.core", 4: "acme.platform.shared.core", 5: "shop_core", 6: "acme.shop_core"}
+# 7 and 8: the shared core IS the embedded core of the first client (generated with its default layout), later clients point at it
+CORES = {1: "sharedcore", 2: "acme.core", 3: "acme.shared.core", 4: "acme.platform.shared.core", 5: "shop_core", 6: "acme.shop_core",
+         7: "alpha.core", 8: "acme.alpha.core"}
 CLIENTS = {1: ["alpha", "beta", "gamma"], 2: ["acme.alpha", "acme.beta", "acme.gamma"], 3: ["acme.apis.alpha", "acme.apis.beta", "acme.gamma"],
-           4: ["acme.apis.alpha", "acme.beta", "other.gamma"], 5: ["shop", "billing", "shop_api"], 6: ["acme.shop", "acme.billing", "other.gamma"]}
+           4: ["acme.apis.alpha", "acme.beta", "other.gamma"], 5: ["shop", "billing", "shop_api"], 6: ["acme.shop", "acme.billing", "other.gamma"],
+           7: ["alpha", "beta", "gamma"], 8: ["acme.alpha", "acme.beta", "other.gamma"]}
 NCONF = len(CORES)
 
 
@@ -106,7 +109,7 @@ def run_history(ctx: Ctx, depth: int, history: list[tuple[int, str, bool]], n: i
         rec.count("histories_with_repetition")
     seen_docs: dict[int, str] = {}
     generated: list[str] = []
-    feats = [f"core_depth_{depth}"]
+    feats = [f"core_depth_{depth}"] + (["core_embedded_in_first_client"] if depth in (7, 8) else [])
     for si, (c, dname, force) in enumerate(history):
         pkg = clients[c]
         if c in seen_docs and seen_docs[c] != dname:
@@ -160,6 +163,8 @@ def histories(ctx: Ctx):
         steps = [(c, d, f) for c in range(3) for d in docs for f in (True,)]
         for a, b in itertools.product(steps, repeat=2):
             for depth in range(1, NCONF + 1):
+                if depth in (7, 8) and not (a[0] == 0 and b[0] != 0):
+                    continue
                 i += 1
                 if ctx.mine(i):
                     yield depth, [a, b]
@@ -173,6 +178,11 @@ def histories(ctx: Ctx):
         # make sure the classic shapes occur: A, B, A and A, B with different error sets
         if k == 0:
             h = [(0, "d404", True), (1, "d422_500", True), (0, "d404", True), (2, "dnone", True)]
+        if depth in (7, 8):
+            # the owner of the embedded core comes first and is never force-regenerated afterwards (forcing it removes its
+            # own package directory, core included - the user's own act); the others join and change freely
+            first_doc = rng.choice(docs)
+            h = [(0, first_doc, True)] + [(c, (first_doc if c == 0 else d), (False if c == 0 else f)) for c, d, f in h[1:]]
         yield depth, h
 
 
